@@ -303,9 +303,20 @@ package route
 //@   pure
 //@   loop 0 invariant 0 <= i && i <= len(expr)
 
+// every bind expression of the segment compiles on its own (not only the concatenation, in which
+// "a)(b" would pair up with the group put around it)
+//@ define bpValid(bp *BindParameters, n int) bool = forall k int :: 0 <= k && k < n ==>
+//@     bp.Parameters[k].Value.Regex != nil && reValid(*bp.Parameters[k].Value.Regex)
+//@ define elemsValid(s *Segment, n int) bool = forall i int :: 0 <= i && i < n ==>
+//@     (s.Elements[i].Ident != nil || s.Elements[i].BindIdent != nil ||
+//@      (s.Elements[i].BindParameters != nil && bpValid(s.Elements[i].BindParameters, len(s.Elements[i].BindParameters.Parameters))))
+
 //@ func constructMatchStyleRegex
 //@   props C08 C02
 //@   requires s != nil
+//@   ensures[C08] result2 == nil ==> elemsValid(s, len(s.Elements))
+//@   loop 0 invariant elemsValid(s, rangeindex + 1)
+//@   loop 1 invariant elemsValid(s, rangeindex#0) && e == s.Elements[rangeindex#0] && e.Ident == nil && e.BindIdent == nil && e.BindParameters != nil && bpValid(e.BindParameters, rangeindex#1 + 1)
 //@   ensures result2 == nil ==> result0 != nil && reGroups(result0) == len(result1)
 //@   ensures result2 != nil ==> result0 == nil
 //@   loop 0 invariant fresh(binds) && buf != nil && fresh(buf) && countGroups(buf.content) == len(binds)
